@@ -92,7 +92,8 @@ def run(R):
         tr = [x for x in mirlib.aggregates(ft, 'call::FindTrailers', 'Trailer')]
         R.check(len(tr) == 1, 'C17.R1', 'trailer-site', site(ft), 'FindTrailers::Trailer constructions: %d' % len(tr))
         for bb, i, p, a, ops in tr:
-            g = ft.edge_guards(bb)
+            g = [(s_, vals_, mirlib.simplify(tm_)) for s_, vals_, tm_ in ft.edge_guards(bb)]
+            g = [(s_, vals_, tm_) for s_, vals_, tm_ in g if tm_ is not mirlib.NEVER]
             okf = any(tm[0] == 'bin' and tm[1] == 'Eq' and const_val(tm[3]) == W['trailers_flag'] and is_call(strip_refs(tm[2]), name='get_u8') and (vals == ['else'] or 0 not in vals) for s, vals, tm in g) \
                 or any(is_call(strip_casts(tm), name='get_u8') and vals == [W['trailers_flag']] for s, vals, tm in g)
             R.check(okf, 'C17.R1', 'trailer-flag-0x80', site(ft, bb, i), 'Trailer reported when the flag byte == 0x80: %r' % okf)
@@ -100,7 +101,15 @@ def run(R):
                 x = strip_casts(x)
                 return is_call(x, name='get_u32')
             def direct_len(x):
-                x = strip_casts(x)
+                # the buffered length, possibly minus what was already walked over (len - offset - HEADER)
+                x = strip_casts(strip_refs(x))
+                for _ in range(4):
+                    if x and x[0] == 'field' and x[1] and x[1][0] == 'bin':
+                        x = x[1]
+                    if x and x[0] == 'bin' and x[1] in ('Sub', 'SubWithOverflow'):
+                        x = strip_casts(strip_refs(x[2]))
+                    else:
+                        break
                 return is_call(x, name='len') or is_call(x, name='remaining')
             okc = any(tm[0] == 'bin' and tm[1] in ('Lt', 'Gt', 'Le', 'Ge') and ((direct_u32(tm[2]) and direct_len(tm[3])) or (direct_u32(tm[3]) and direct_len(tm[2]))) for s, vals, tm in g)
             R.check(okc, 'C17.R1', 'whole-trailers-frame-required', site(ft, bb, i),
